@@ -12,9 +12,8 @@ import Py4hwV.Verilog.Syntax
     constants (substituted), otherwise it becomes a fresh `integer` (ReplaceWiresAndVariables); `w.get()` is the
     attribute name of `w`;
   * local / state assignment is blocking `=`, `put` and `prepare` are both `<=` (tables `varAssign`/`syncAssign`/`asyncAssign`);
-  * nested operators are parenthesised on both sides (`parenLeft`/`parenRight`/`parenUnary`), EXCEPT the right operand of a
-    comparison, which is emitted as a bare list (`parenCmpRightList = "3==1+2"`): `safeRhs` says when re-reading that text
-    under Verilog precedence gives back the intended tree;
+  * nested operators are parenthesised on both sides (`parenLeft`/`parenRight`/`parenUnary`), since /repo 72c6814 also the right
+    operand of a comparison (`parenCmpRightList = "3==(1+2)"`; before, it was emitted bare and `a == b & 1` was re-read `(a==b)&1`);
   * `case` emission with a guard wrapped as `if` inside the arm (ReplaceMatch), ternaries turned into a statement-shaped
     VerilogIf (ReplaceIf.visit_IfExp) - both outside `supported`.
   `supported` is the decidable fragment on which the translation is PROVED to preserve behaviour (Props/C02.lean);
@@ -150,16 +149,6 @@ def sw (c : ClassD) : Expr → Nat
 /-- a self-determined position computes exactly: a bare leaf, or an expression at least as wide as an `integer` -/
 def exact (c : ClassD) (e : Expr) : Bool := leaf e || decide (32 ≤ sw c e)
 
-/-- the right comparator is emitted without parentheses: does Verilog precedence re-read it as intended? -/
-def safeRhs (op : CmpOp) : Expr → Bool
-  | .bin bop _ _ => match bop with
-      | .add | .sub | .mul | .fdiv | .fmod | .shl | .shr => true
-      | .band | .bor | .bxor => false
-  | .cmp bop _ _ => (match op with | .eq | .ne => true | _ => false) &&
-                    (match bop with | .eq | .ne => false | _ => true)
-  | .and _ _ | .or _ _ | .ite _ _ _ => false
-  | _ => true
-
 /-- boolean-valued (0/1) expressions: here Python's operand-returning `and`/`or` coincide with Verilog's `&&`/`||` -/
 def isBool : Expr → Bool
   | .const v => v == 0 || v == 1
@@ -180,7 +169,7 @@ def okV (c : ClassD) : Expr → Bool
   | .un .lnot e => okC c e
   | .un _ e => okV c e
   | .bin op a b => okV c a && okV c b && (!(isShiftOp op) || exact c b)
-  | .cmp op a b => okV c a && okV c b && safeRhs op b && (decide (32 ≤ max (sw c a) (sw c b)) || (leaf a && leaf b))
+  | .cmp _ a b => okV c a && okV c b && (decide (32 ≤ max (sw c a) (sw c b)) || (leaf a && leaf b))
   | .and a b => okC c a && okC c b && isBool a && isBool b
   | .or a b => okC c a && okC c b && isBool a && isBool b
   | .ite _ _ _ => false
@@ -207,17 +196,21 @@ def wideAssign (c : ClassD) (w : String) (e : Expr) : Bool :=
   (match e with | .get _ => true | _ => false) ||
   decide (32 ≤ max (match c.port? w with | some p => p.width | none => 32) (sw c e))
 
-def okS (c : ClassD) : Stmt → Bool
+/-- statement fragment; `q` = the body is a `clock()` (true: `prepare` and state assignment allowed) or a `propagate()`
+    (false: `put` allowed) -/
+def okSg (q : Bool) (c : ClassD) : Stmt → Bool
   | .skip => true
-  | .seq a b => okS c a && okS c b
+  | .seq a b => okSg q c a && okSg q c b
   | .setLoc n e => !(isPort c n) && !(isState c n) && (lookup c.consts n).isNone && (lookup c.params n).isNone && okV c e
-  | .setAttr n e => isState c n && !(isPort c n) && (lookup c.params n).isNone && c.isSeq && okV c e
-  | .put w e => isOutPort c w && !c.isSeq && okV c e && wideAssign c w e
-  | .prep w e => isOutPort c w && c.isSeq && okV c e && wideAssign c w e
-  | .ife cnd t e => okC c cnd && okS c t && okS c e
-  | .mtch subj ch => okV c subj && exact c subj && okS c ch
-  | .arm v g body rest => g.isNone && okV c v && exact c v && okS c body && okS c rest
-  | .dflt body => okS c body     -- no `case _` = `dflt skip`: emitted as `default:;` (null statement) since /repo b2612d8
+  | .setAttr n e => isState c n && !(isPort c n) && (lookup c.params n).isNone && q && okV c e
+  | .put w e => isOutPort c w && !q && okV c e && wideAssign c w e
+  | .prep w e => isOutPort c w && q && okV c e && wideAssign c w e
+  | .ife cnd t e => okC c cnd && okSg q c t && okSg q c e
+  | .mtch subj ch => okV c subj && exact c subj && okSg q c ch
+  | .arm v g body rest => g.isNone && okV c v && exact c v && okSg q c body && okSg q c rest
+  | .dflt body => okSg q c body     -- no `case _` = `dflt skip`: emitted as `default:;` (null statement) since /repo b2612d8
+
+def okS (c : ClassD) (s : Stmt) : Bool := okSg c.isSeq c s
 
 def getsE : Expr → List String
   | .get n => [n]
